@@ -325,6 +325,9 @@ def acyclicity_tie(ctx, tables):
 
 
 # ---------------------------------------------------------------- the theorems about walk_resolve, on the implementation
+_RESOLVED_CFG = {}
+
+
 def impl_resolved(abbr, cfg):
     """The abbreviation parsed the way markup.parse does and run through resolve_snippets ONLY (before the
     transform pass): ('ok', nested forest) with nodes [name, value, repeat, attrs, self_closing, children]."""
@@ -350,7 +353,12 @@ def impl_resolved(abbr, cfg):
         rp = n.repeat
         return [n.name, val(n.value), None if rp is None else (rp.count, rp.value, bool(rp.implicit)), attrs(n.attributes),
                 bool(n.self_closing), [nest(c) for c in n.children]]
-    config = Config(copy.deepcopy(cfg))
+    ent = _RESOLVED_CFG.get(id(cfg))
+    if ent is None or ent[0] is not cfg:
+        if len(_RESOLVED_CFG) > 16:
+            _RESOLVED_CFG.clear()
+        ent = _RESOLVED_CFG[id(cfg)] = (cfg, Config(copy.deepcopy(cfg)))      # resolve_snippets only reads the Config
+    config = ent[1]
     text = config.get('text')
     try:
         tree = abbreviation(abbr, {'text': text, 'variables': config.variables, 'options': config.options,
@@ -358,7 +366,11 @@ def impl_resolved(abbr, cfg):
                                    'jsx': bool(config.options.get('jsx.enabled')), 'href': config.options.get('markup.href')})
         if text:
             config.user_config['text'] = None
-        resolve_snippets(tree, config)
+        try:
+            resolve_snippets(tree, config)
+        finally:
+            if text:
+                config.user_config['text'] = text
     except Exception as e:  # noqa
         return classify_exc(e)
     return ('ok', [nest(c) for c in tree.children])
@@ -476,8 +488,14 @@ def resolved_tie(ctx, tables):
                     wires.append([7] + ec + enc_str(abbr))
                     impl.append((abbr, cfg, r))
     dis = 0
+    if os.environ.get('C14_TIMING'):
+        import time as _t
+        ctx.say('TIMING   resolved tie: implementation side done at %s' % _t.strftime('%X'))
     if snip is not None and wires:
-        for (abbr, cfg, r), w in zip(impl, snip.run(wires)):
+        outs = snip.run(wires)
+        if os.environ.get('C14_TIMING'):
+            ctx.say('TIMING   resolved tie: model side done at %s' % _t.strftime('%X'))
+        for (abbr, cfg, r), w in zip(impl, outs):
             mo = au.decode_tree(w)
             im = ('ok', flatten(r[1])) if r[0] == 'ok' else r
             if im[0] == 'recursion':
@@ -636,9 +654,17 @@ def check_case(c):
 
 
 def run(ctx):
+    import time as _t
+    _t0 = [_t.time()]
+
+    def lap(name):
+        if os.environ.get('C14_TIMING'):
+            ctx.say('TIMING %s %.1fs' % (name, _t.time() - _t0[0]))
+        _t0[0] = _t.time()
     ok = ctx.build(['props/C14.vo', 'run/MarkupRun.vo', 'run/AttrRun.vo', 'run/SnipRun.vo'])
     if ok:
         ctx.obligations('props/C14.v')
+    lap('build+obligations')
     model = ctx.model('markup') if ok else None
     ctx.cov['rule'] = ('every key of the html/xsl/pug tables: alias alone, `ul>KEY*2`, `KEY.extra[t=v]`, `KEY>b` against the same '
                        'abbreviation with the definition written in its place by an independent textual reader (harness/snippet_util.py), '
@@ -656,6 +682,7 @@ def run(ctx):
     tables = []
     cases += user_cases(ctx, 400 if ctx.tier == 'quick' else 6000, tables)
     cases += variable_round_cases()
+    lap('generate')
     wires, idx, impl = [], [], []
     maxdepth = 0
     timeouts = 0
@@ -684,6 +711,7 @@ def run(ctx):
                 idx.append(k)
             except NotModelled:
                 ctx.cover('C14:not-modelled')
+    lap('impl+oracle')
     dis = 0
     if wires:
         outs = model.run(wires)
@@ -697,6 +725,7 @@ def run(ctx):
                     ctx.broken.append({'kind': 'correspondence', 'file': 'markup-C14', 'input': c['a'], 'config': canon_cfg(c['config']),
                                        'impl': repr(impl[k])[:300], 'model': repr(mo)[:300]})
     ctx.cov['correspondence']['markup_C14'] = {'cases': len(wires), 'disagreements': dis}
+    lap('markup model')
     if ok:
         au.compare_trees(ctx, 'C14', [(c['a'], c['config']) for c, r in zip(cases, impl) if r[0] == 'ok'])
         from emmet.snippets import markup_snippets, xsl_snippets, pug_snippets
@@ -704,8 +733,13 @@ def run(ctx):
                           ({'syntax': 'xsl'}, {**markup_snippets, **xsl_snippets}),
                           ({'syntax': 'pug'}, {**markup_snippets, **pug_snippets}),
                           ({'syntax': 'html', 'options': {'output.reverseAttributes': True}}, dict(markup_snippets))]
+        lap('tree compare')
         acyclicity_tie(ctx, tables + builtin_tables[:3])
-        resolved_tie(ctx, tables + builtin_tables)
+        lap('acyclicity tie')
+        # the resolver oracle: html table in both attribute orders, the keys xsl / pug add or override, and the user tables
+        resolved_tie(ctx, (tables[:250] if ctx.tier == 'quick' else tables) +
+                     [builtin_tables[0], builtin_tables[3], ({'syntax': 'xsl'}, dict(xsl_snippets)), ({'syntax': 'pug'}, dict(pug_snippets))])
+        lap('resolved tie')
     ctx.cov['corpus_cases'] = n_corpus
     ctx.cov['max_resolve_depth_seen'] = maxdepth
     for c, r in list(zip(cases, impl))[-40:-36]:
